@@ -743,7 +743,7 @@ fn corr(r: &mut Rng, thorough: bool, o: &mut Out) {
         // generic coordinates, keeping the closing structure
         let jit = |p: Point| Point::new(p.x * (1.0 + 3e-10) + 1e-11, p.y * (1.0 - 2e-10) - 1e-11);
         let mut bp = BezPath::new();
-        for el in bp0.elements() {
+        for el in drop_some_movetos(r, bp0.elements()).iter() {
             bp.push(match *el {
                 kurbo::PathEl::MoveTo(p) => kurbo::PathEl::MoveTo(jit(p)),
                 kurbo::PathEl::LineTo(p) => kurbo::PathEl::LineTo(jit(p)),
@@ -906,8 +906,59 @@ fn law_additive(a: &[f64]) -> Option<(String, String)> {
 fn g_path_acc(r: &mut Rng) -> Vec<f64> {
     let nsub = 1 + r.below(3) as usize;
     let bp = gen_closed_path(r, nsub, 5, 3);
+    let els = drop_some_movetos(r, bp.elements());
     let mut v = vec![gen_acc(r).max(1e-7)];
-    v.extend(enc_els(bp.elements()));
+    v.extend(enc_els(&els));
+    v
+}
+
+/// Drop, with probability 1/3 each, the `MoveTo` that follows a `ClosePath`: the next sub-path then starts implicitly at
+/// the previous sub-path's start point (what `BezPath::line_to` documents and `Segments::next` implements).
+/// (Added after a seeded change — `Segments::next` not moving the current point back on `ClosePath` — was missed by C03.)
+fn drop_some_movetos(r: &mut Rng, els: &[kurbo::PathEl]) -> Vec<kurbo::PathEl> {
+    let mut out: Vec<kurbo::PathEl> = Vec::new();
+    for e in els {
+        if let kurbo::PathEl::MoveTo(_) = e {
+            if matches!(out.last(), Some(kurbo::PathEl::ClosePath)) && r.chance(1, 3) {
+                continue;
+            }
+        }
+        out.push(*e);
+    }
+    out
+}
+
+/// the segments of an element list by the documented rule, written independently of `Segments::next`
+fn own_segments(els: &[kurbo::PathEl]) -> Vec<PathSeg> {
+    use kurbo::{CubicBez, Line, PathEl, QuadBez};
+    let mut v = Vec::new();
+    let (mut start, mut cur) = (Point::ORIGIN, Point::ORIGIN);
+    for e in els {
+        match *e {
+            PathEl::MoveTo(p) => {
+                start = p;
+                cur = p;
+            }
+            PathEl::LineTo(p) => {
+                v.push(PathSeg::Line(Line::new(cur, p)));
+                cur = p;
+            }
+            PathEl::QuadTo(a, b) => {
+                v.push(PathSeg::Quad(QuadBez::new(cur, a, b)));
+                cur = b;
+            }
+            PathEl::CurveTo(a, b, c) => {
+                v.push(PathSeg::Cubic(CubicBez::new(cur, a, b, c)));
+                cur = c;
+            }
+            PathEl::ClosePath => {
+                if cur != start {
+                    v.push(PathSeg::Line(Line::new(cur, start)));
+                }
+                cur = start;
+            }
+        }
+    }
     v
 }
 
@@ -918,7 +969,7 @@ fn law_perimeter(a: &[f64]) -> Option<(String, String)> {
     let bp = BezPath::from_vec(els.clone());
     let p = bp.perimeter(acc);
     let p2 = els.as_slice().perimeter(acc);
-    let segs: Vec<PathSeg> = bp.segments().collect();
+    let segs: Vec<PathSeg> = own_segments(&els);
     let sum: f64 = segs.iter().map(|s| s.arclen(acc)).sum();
     if !sum.is_finite() {
         return None;
